@@ -3,8 +3,10 @@
 import json, sys
 pid, wt = sys.argv[1], sys.argv[2]
 p = next(json.loads(l) for l in open('/verif/properties.jsonl') if json.loads(l)['id'] == pid)
-out = "/tmp/seed-out/%s" % pid.lower()
-print(f"""You are helping to evaluate a verification effort for the Go project mycoria (an overlay mesh router). Your job: craft a realistic, subtle code change ("seeded defect") that BREAKS the semantic property below while the project still compiles and its existing test suite still passes.
+rnd = sys.argv[3] if len(sys.argv) > 3 else ""
+out = "/tmp/seed-out%s/%s" % (rnd, pid.lower())
+extra = " - for THIS round prefer less obvious places: not the first function that comes to mind, ideally a defect that needs a multi-step history, a particular interleaving, or two cooperating code sites that each look fine alone, and that a careful reviewer could still overlook; make the variants call themselves \"c\" and \"d\" (directories c/ and d/, meta.json variant \"c\"/\"d\")" if rnd else ""
+text = (f"""You are helping to evaluate a verification effort for the Go project mycoria (an overlay mesh router). Your job: craft a realistic, subtle code change ("seeded defect") that BREAKS the semantic property below while the project still compiles and its existing test suite still passes.
 
 Work ONLY inside the scratch git worktree {wt} (a checkout of the project). Do NOT read or touch /verif, /root/.vp or /repo - your work must be independent of them.
 
@@ -18,7 +20,7 @@ THE PROPERTY ({pid}: {p['title']}):
 Quantified over: {p['quantifier']['text']}
 Relevant files: {', '.join(p['anchors']['files'])}
 
-What to produce - up to TWO independent seeded defects (variant "a" and, if you can, a genuinely different variant "b"; each is a separate patch against the pristine worktree):
+What to produce - up to TWO independent seeded defects (variant "a" and, if you can, a genuinely different variant "b"; each is a separate patch against the pristine worktree){{EXTRA}}:
 1. The change must violate the property as stated (not merely change behaviour), still compile, and keep the existing test suite passing (run it to be sure).
 2. It should look like a plausible developer mistake / refactoring slip / "optimisation", small (a few lines), and should need something specific to manifest: a particular interleaving, a fault at a particular point, a multi-step sequence of operations, an unusual input or boundary value, or two cooperating sites that each look fine alone. Avoid changes that ordinary use would expose at once (e.g. breaking every frame).
 3. A demonstration: a Go test file (package-internal test is fine) that FAILS with your change applied and PASSES on the pristine tree. Keep it small and deterministic.
@@ -29,3 +31,4 @@ For each variant write into {out}/<a|b>/ (create the directory):
   - meta.json : {{"property":"{pid}","variant":"a","summary":"...what the change does...","needs":"...what is needed for it to manifest...","demo_path":"...","demo_cmd":"...","suite_passes":true}}
 After capturing a variant, reset the worktree (git -C {wt} checkout -- . ; remove the demo file) before starting the next one, and leave the worktree pristine at the end.
 Verify for each variant yourself: (i) suite passes with patch, (ii) demo fails with patch, (iii) demo passes without patch. Report briefly what you did.""")
+print(text.replace("{EXTRA}", extra).replace("<a|b>", "<c|d>" if rnd else "<a|b>"))
